@@ -32,6 +32,15 @@ OPTION_PROBES = [(ebb_calc.move_dist_lt, ["rate", "accel", "time", "accum"], [10
 def body(ctx, case):
     """The main move, preceded (when case["before"] is set) by calls for the same rates with another duration and/or
     start accumulator: every call is judged on its own, so nothing remembered from one call may leak into the next."""
+    if case.get("t0"):
+        # a zero-duration query for these rates first (T = 0 is outside the quantifier: its result is not judged)
+        ctx.classes["zero_duration_query_first"] += 1
+        for fn, args in ((ebb_calc.move_dist_lt, (case["rate"], case["accel"], 0, case["accum"])),
+                         (ebb_motion.moveDistLM, (case["rate"], case["accel"], 0))):
+            try:
+                fn(*args)
+            except Exception:  # pylint: disable=broad-except
+                pass
     for variation in case.get("before", []):
         ctx.classes["same_rates_other_duration_or_accumulator"] += 1
         one(ctx, dict(case, **variation), case)
@@ -113,6 +122,8 @@ def cases(draw):
             "accum": draw(accumulators()), "ambient": draw(AMBIENT)}
     if draw(st.integers(0, 3)) == 0:
         case["before"] = draw(variations(case["T"]))
+    if draw(st.integers(0, 5)) == 0:
+        case["t0"] = True
     return case
 
 
